@@ -1,4 +1,4 @@
-"""C08 ECDSA (P-256, secp256k1) verification: byte-level glue of
+"""C08 ECDSA (P-256, secp256k1); signing side: props/C08_sign.py.  Verification: byte-level glue of
 `PublicKey::decode` + `verify_hash` on the real optimized IR with contract
 stubs at the cut-point functions (engine L; see props/glue.py, props/C07.py).
 
@@ -335,34 +335,51 @@ THOROUGH = QUICK + [("p256", 65, s, h) for s in (2, 60, 68, 70) for h in (1, 31,
 
 
 def run(tier, only=None):
+    from . import C08_sign as SG
     t0 = time.time()
     shapes = [s for s in (QUICK if tier == "quick" else THOROUGH) if not only or s[0] in only]
-    built = build(drivers(shapes), tag="C08-cut", cut=True)
+    sshapes = [s for s in (SG.QUICK if tier == "quick" else SG.THOROUGH) if not only or "sign" in only or s[0] in only]
+    built = build(drivers(shapes) + (SG.drivers(sshapes) if sshapes else []), tag="C08-cut", cut=True)
+    shooks = SG.Hooks(built) if sshapes else None
     timeout = 60 if tier == "quick" else 300
+    items = [("verify", s) for s in shapes] + [("sign", s) for s in sshapes]
 
-    def work(sh):
+    def work(it):
         T.reset()
-        return check_shape(built, sh, timeout)
-    res = pmap(work, shapes, nproc=NCPU, timeout=timeout * 20)
+        if it[0] == "sign":
+            return SG.check_sign(built, shooks, it[1], timeout)
+        return check_shape(built, it[1], timeout)
+    res = pmap(work, items, nproc=NCPU, timeout=timeout * 20)
     obs = []
-    for sh, (st, val) in zip(shapes, res):
+    for it, (st, val) in zip(items, res):
         if st == "ok":
             obs.extend(val)
         else:
-            o = Obligation("default:%s.verify_hash[pk=%d,sig=%d,hv=%d]" % sh, "L")
+            o = Obligation(SG.ob_name(it[1]) if it[0] == "sign" else "default:%s.verify_hash[pk=%d,sig=%d,hv=%d]" % it[1], "L")
             o.unknown("%s: %s" % (st, str(val)[-400:]))
             obs.append(o)
     built.close()
     return finish("C08", tier, obs, t0,
                   functions_encoded=sorted(set(fn for o in obs for fn in o.functions)),
                   bounds={"shapes (curve, key length, signature length, hash length)": [list(s) for s in shapes],
+                          "sign_shapes (curve, hash length, extra-randomness length)": [list(s) for s in sshapes],
+                          "sign_hash retry loop": "first iteration; every rejection path is followed until it asks for the second nonce candidate",
                           "build": "optimized IR with --cfg pornin_crrl_verif_cut"},
                   stubs={"Point::set_decode": "fresh point + status bit (C06/C19)",
                          "ModInt256::set_decode32 / set_decode_reduce": "fresh scalar (+ status bit) (C05)",
                          "ModInt256::set_div": "fresh quotient (C12)",
                          "Point::set_mul_add_mulgen_vartime": "fresh point = [u]Q + [v]G (C10)",
-                         "Point::encode_compressed": "fresh 33 bytes (C06)"},
+                         "Point::encode_compressed": "fresh 33 bytes (C06)",
+                         "Point::set_mulgen (signing side)": "fresh point = [k]G (C04)",
+                         "SHA2Small::process / SHA2Big::process (signing side)": "uninterpreted compression functions (C17)"},
                   assumptions=["the stubs' contracts are decided by the checks named in `stubs`",
-                               "scalar multiplication r*w, h*w is the library's own Montgomery multiplication (C01)"],
-                  outside=["sign_hash: RFC 6979 / SHA-512 nonce derivation byte strings and the retry loop are not posed",
+                               "scalar multiplication r*w, h*w is the library's own Montgomery multiplication (C01)",
+                               "signing side: h + x*r, the scalar encodings and the 0 -> 1 replacement are the library's own scalar "
+                               "operations (reference drivers applied to the stub outputs; field semantics: C01/C05)"],
+                  outside=["sign_hash: second and later iterations of the retry loop (the first rejection is followed up to "
+                           "the request for the next candidate, which is the documented one)",
+                           "sign_hash: hash / extra-randomness lengths beyond the listed shapes (lengths only drive the hash buffering: C17)",
+                           "that a signature so produced is accepted by verify_hash: follows from the two glue claims plus the "
+                           "stubs' contracts, not separately decided",
+                           "PrivateKey::decode / from_seed (the signing key is taken as any scalar value in memory)",
                            "signature lengths beyond the listed shapes"])
